@@ -169,7 +169,8 @@ pub fn caps_lonlat() -> Vec<(f64, f64, &'static str)> {
 }
 pub fn merid_lonlat() -> Vec<(f64, f64, &'static str)> {
     let mut out = Vec::new();
-    for lon in [180.0, -180.0, 179.9999999, -179.9999999, 540.0, -540.0] {
+    // +-180 and the library's internal longitude seam (azimuth +-pi = longitude 87 E / -273)
+    for lon in [180.0, -180.0, 179.9999999, -179.9999999, 540.0, -540.0, 87.0, 86.9999999, 87.0000001, -273.0] {
         for k in 0..73 {
             out.push((lon, -90.0 + 2.5 * k as f64, "antimeridian"));
         }
